@@ -265,7 +265,10 @@ def handle (op : String) (j : Json) : Option (Except String Json) :=
     let newBlocks := match m with
       | .ins _ _ p => p.text.blocks.all (fun b => (ir.block? b.id).isNone)
       | .del _ _ _ => true
-    let res : Json := match IR.applyMods origOff ir (some actual) total [m] with
+    let func : Option Nat := match j.getObjVal? "func" with
+      | .ok v => v.getNat?.toOption
+      | .error _ => none
+    let res : Json := match IR.applyMods origOff func ir (some actual) total [m] with
       | .ok ir' => Json.mkObj [("ir", irJ ir')]
       | .error e => errJson e
     .ok (Json.mkObj [("ao", ao), ("ids_below", Json.bool idsBelow), ("new_blocks", Json.bool newBlocks), ("res", res)])
